@@ -1329,3 +1329,162 @@ func checkWidePaddingFromMainRune(c *Ctx, p *Prog, rule string) {
 	}
 	c.Check(bad == "", rule, "tScreen.drawCell:wide-padding-from-main-rune", p.pos(dc.Pos()), fmt.Sprintf("%d encoder call(s) can have produced the flag tested under width > 1, each for the main rune %s", n, bad))
 }
+
+// evalTColor decides TColor by constant evaluation (T18): for every colour count the database uses
+// and a grid of foreground/background indexes (dense from -3 to 40, and the neighbours of every palette
+// boundary), the sequence of TParm calls it makes — which capability, which index — is compared with
+// the statement: bright colours folded onto the basic eight where Colors == 8, the foreground expanded
+// iff 0 <= index < Colors, then the background likewise.  Answers nil when the function cannot be
+// evaluated (the symbolic reading of c15TColor is used then), otherwise a map from the rule's keys to
+// the first counter-example ("" when the clause held everywhere).
+func evalTColor(p *Prog, fn *ssa.Function) map[string]string {
+	tparm := p.Fn("terminfo:(*Terminfo).TParm")
+	named := p.namedType(p.Terminfo, "Terminfo")
+	if tparm == nil || named == nil || len(fn.Params) != 3 {
+		return nil
+	}
+	st, ok := named.Underlying().(*types.Struct)
+	if !ok {
+		return nil
+	}
+	fieldIdx := map[string]int{}
+	for i := 0; i < st.NumFields(); i++ {
+		fieldIdx[st.Field(i).Name()] = i
+	}
+	for _, f := range []string{"Colors", "SetFg", "SetBg"} {
+		if _, ok := fieldIdx[f]; !ok {
+			return nil
+		}
+	}
+	tag := func(b byte) *cv { return &cv{kind: cvAgg, elems: []*cv{cvI(int64(b))}} }
+	var idxs []int64
+	for i := int64(-3); i <= 40; i++ {
+		idxs = append(idxs, i)
+	}
+	for _, b := range []int64{87, 88, 89, 100, 254, 255, 256, 257, 300, 1<<24 - 1, 1 << 24, 1<<24 + 1} {
+		idxs = append(idxs, b)
+	}
+	res := map[string]string{}
+	for _, v := range []string{"fi", "bi"} {
+		for _, k := range []string{"TColor:fold-by-8:" + v, "TColor:8-colour-test:" + v, "TColor:" + v + ">7", "TColor:" + v + "<16", "TColor:" + v + "-in-range", "TColor:" + v + ">=0"} {
+			res[k] = ""
+		}
+	}
+	res["TColor:TParm(SetFg)"], res["TColor:TParm(SetBg)"] = "", ""
+	type emitted struct {
+		cap byte
+		idx int64
+	}
+	fold := func(colors, x int64) int64 {
+		if colors == 8 && x >= 8 && x < 16 {
+			return x - 8
+		}
+		return x
+	}
+	note := func(key, w string) {
+		if res[key] == "" {
+			res[key] = w
+		}
+	}
+	for _, colors := range []int64{0, 1, 2, 8, 16, 88, 256, 1 << 24} {
+		for _, fi := range idxs {
+			for _, bi := range idxs {
+				var got []emitted
+				unknown := false
+				ce := &constEval{pk: p.pkg("terminfo"), globals: map[*ssa.Global]*cv{}}
+				recv := ce.zero(named.Underlying())
+				recv.elems[fieldIdx["Colors"]] = cvI(colors)
+				recv.elems[fieldIdx["SetFg"]] = tag('F')
+				recv.elems[fieldIdx["SetBg"]] = tag('B')
+				ce.onCall = func(cc *ssa.CallCommon, args []*cv) (*cv, bool) {
+					if cc.StaticCallee() != tparm {
+						return nil, false
+					}
+					if len(args) != 3 || args[1].kind != cvAgg || len(args[1].elems) != 1 || args[1].elems[0].kind != cvInt ||
+						args[2].kind != cvAgg || len(args[2].elems) != 1 || args[2].elems[0].kind != cvInt {
+						unknown = true
+						return cvU, true
+					}
+					got = append(got, emitted{byte(args[1].elems[0].i), args[2].elems[0].i})
+					return cvU, true
+				}
+				params := map[*ssa.Parameter]*cv{fn.Params[0]: {kind: cvPtr, p: recv}, fn.Params[1]: cvI(fi), fn.Params[2]: cvI(bi)}
+				if _, err := ce.call(p, fn, params); err != nil || unknown {
+					return nil
+				}
+				var want []emitted
+				if f := fold(colors, fi); f >= 0 && f < colors {
+					want = append(want, emitted{'F', f})
+				}
+				if b := fold(colors, bi); b >= 0 && b < colors {
+					want = append(want, emitted{'B', b})
+				}
+				if fmt.Sprint(got) == fmt.Sprint(want) {
+					continue
+				}
+				w := fmt.Sprintf("Colors=%d fg=%d bg=%d: TParm calls %s, want %s", colors, fi, bi, fmtEmitted(got), fmtEmitted(want))
+				// which clause: look at each component on its own
+				for _, comp := range []struct {
+					v   string
+					cap byte
+					x   int64
+				}{{"fi", 'F', fi}, {"bi", 'B', bi}} {
+					var g, wn *emitted
+					for i := range got {
+						if got[i].cap == comp.cap {
+							g = &got[i]
+						}
+					}
+					for i := range want {
+						if want[i].cap == comp.cap {
+							wn = &want[i]
+						}
+					}
+					switch {
+					case g == nil && wn == nil:
+					case g != nil && wn != nil && g.idx == wn.idx:
+					case g != nil && wn == nil && comp.x < 0:
+						note("TColor:"+comp.v+">=0", w)
+					case g != nil && wn == nil:
+						note("TColor:"+comp.v+"-in-range", w)
+					case colors == 8 && comp.x >= 8 && comp.x < 16:
+						note("TColor:fold-by-8:"+comp.v, w)
+					case g != nil && wn != nil && colors != 8:
+						note("TColor:8-colour-test:"+comp.v, w)
+					case g != nil && wn != nil && comp.x < 8:
+						note("TColor:"+comp.v+">7", w)
+					case g != nil && wn != nil:
+						note("TColor:"+comp.v+"<16", w)
+					default:
+						note("TColor:"+comp.v+"-in-range", w)
+					}
+				}
+				// order, duplicates, the other component's index
+				cap := "TColor:TParm(SetFg)"
+				if len(got) > 0 && got[0].cap == 'B' && len(want) > 0 && want[0].cap == 'F' {
+					cap = "TColor:TParm(SetBg)"
+				}
+				clean := true
+				for _, v := range res {
+					if v == w {
+						clean = false
+					}
+				}
+				if clean {
+					note(cap, w)
+				}
+			}
+		}
+	}
+	return res
+}
+
+func fmtEmitted[T any](es []T) string {
+	if len(es) == 0 {
+		return "none"
+	}
+	s := fmt.Sprint(es)
+	s = strings.ReplaceAll(s, "{70 ", "(SetFg, ")
+	s = strings.ReplaceAll(s, "{66 ", "(SetBg, ")
+	return strings.ReplaceAll(s, "}", ")")
+}
